@@ -24,8 +24,8 @@ PROPS = {
     },
     "C08": {
         "modules": ["Cose.Props.C08"],
-        "families": ["cbor", "map"],
-        "spec_ops": ["cbor.enc"],
+        "families": ["cbor", "map", "msg:wrongtype"],
+        "spec_ops": ["cbor.enc", "wire.wrongtype", "cbor.encdup"],
         "n_quick": 8000, "n_thorough": 800000,
         "rule": "cbor.enc: random Go values (all integer kinds, nil/empty slices, nested CoseMaps of 0..320 int/text labels) encoded by the "
                 "library vs the Lean deterministic encoder; cbor.dec / map.unmarshal: random CBOR trees written by an independent "
